@@ -270,16 +270,13 @@ def process_chunk(args):
                         if got != plain:
                             res['diverged'] += 1
                         if focus:
-                            # model-independent semantic probes, used only to find a failing input after an obligation broke
+                            # model-independent semantic probe of `nouts`, used only to find a failing input after an obligation broke
+                            # (original-vs-converted comparison is C01's oracle and is deliberately not repeated here)
                             case = {'recursive': rec, 'input': list(inp), 'decisions': list(dec)}
                             try:
-                                orig = progen.run_program(mod, mod.f, inp, dec)
-                                if orig != plain and len(res['rt_failures']) < 6:
-                                    res['rt_failures'].append(dict(case, what='the converted function behaves differently from the original',
-                                                                   cls=None, detail={'original': repr(orig)[:300], 'converted': repr(plain)[:300]}))
                                 with FunctionalIf([a for a in (ag, gag) if a is not None], variables.Undefined):
                                     fun = progen.run_program(mod, tr.converted, inp, dec)
-                                if fun != plain and len(res['rt_failures']) < 6:
+                                if fun != plain and not any(g['what'].startswith('outputs are not the first') for g in res['rt_failures']):
                                     res['rt_failures'].append(dict(case, what='outputs are not the first nouts state entries: an if_stmt that passes only '
                                                                    'the first nouts entries on changes the result', cls=None,
                                                                    detail={'functional': repr(fun)[:300], 'native': repr(plain)[:300]}))
@@ -289,7 +286,7 @@ def process_chunk(args):
                             res['counts'][k] = res['counts'].get(k, 0) + v
                         seen |= ins.seen_loops
                         for f in ins.failures:
-                            if len(res['rt_failures']) < 6:
+                            if len(res['rt_failures']) < 6 and not any(g['what'] == f['what'] and g['cls'] == f['cls'] for g in res['rt_failures']):
                                 res['rt_failures'].append({'recursive': rec, 'input': list(inp), 'decisions': list(dec),
                                                            'what': f['what'], 'cls': f['cls'], 'detail': f['detail']})
             res['seen_directive_loops'] = len(seen)
@@ -319,10 +316,10 @@ def gen_programs(run):
     rng = run.rng
     info = {}
     progs = []
-    sk = list(progen.skeleton_programs(max_stmts=4 if quick else 5, max_depth=3, cap=420 if quick else 3000,
+    sk = list(progen.skeleton_programs(max_stmts=4 if quick else 5, max_depth=3, cap=420 if quick else 1500,
                                        rng=random.Random(rng.getrandbits(32)), info=info))
-    rnd = list(progen.random_programs(random.Random(rng.getrandbits(32)), 200 if quick else 1400, size=14))
-    comp = composite_programs(random.Random(rng.getrandbits(32)), 60 if quick else 400)
+    rnd = list(progen.random_programs(random.Random(rng.getrandbits(32)), 200 if quick else 700, size=14))
+    comp = composite_programs(random.Random(rng.getrandbits(32)), 60 if quick else 200)
     out = []
     for p in sk + rnd + comp:
         density = rng.choice([0.0, 0.5, 0.5, 1.0])
@@ -446,6 +443,8 @@ def check(run, only=None):
     run.build_and_audit('MaltModel.Props.C03', model_files=MODEL_FILES)
 
     stats = new_stats()
+    if only is None:
+        c03_cf.check_blockvars(run, 1500 if run.tier == 'quick' else 8000)
     # ---------------- corpus first (known witnesses; must keep failing in their class, or pass if fixed)
     corp = corpus_items()
     if corp and only is None:
